@@ -222,7 +222,13 @@ VDecodeSuffix(ev) ==
       spb == DecodeMessage(ev.in \o ev.suffix, opts)
       \* "forall accepted b with declared length": accepted by the IMPLEMENTATION, as a control message or a data
       \* message with a Length field
-      declared == Finished(ev.out_a) /\ ev.out_a.t = "ok" /\ (ev.out_a.v.k = "Control" \/ ev.out_a.v.length # << >>)
+      declared == \/ Finished(ev.out_a) /\ ev.out_a.t = "ok" /\ (ev.out_a.v.k = "Control" \/ ev.out_a.v.length # << >>)
+                  \* ... or a control message the implementation REJECTS although its header is complete and its
+                  \* declared end lies inside the buffer: the error list must not depend on what follows either
+                  \* ("octets after the declared end never change the result")
+                  \/ /\ Len(ev.in) >= 12 /\ FlagT(U16At(ev.in, 0)) /\ FlagL(U16At(ev.in, 0))
+                     /\ U16At(ev.in, 2) >= 12 /\ U16At(ev.in, 2) <= Len(ev.in)
+                     /\ Finished(ev.out_a) /\ ev.out_a.t = "err"
       ra == [out |-> ev.out_a, rem |-> ev.rem_a]
       rb == [out |-> ev.out_b, rem |-> ev.rem_b - Len(ev.suffix)]
   IN MsgOutcomeTags(spa, ev.out_a, ev.rem_a) \o MsgOutcomeTags(spb, ev.out_b, ev.rem_b)
